@@ -384,7 +384,8 @@ class Prop:
         if op == "weight":
             return {"ok": True, "shape": al, "dense": [sum(x) for x in strings]}
         if op == "weight_one_hot":
-            r = N + 1 if case["r"] is None else case["r"]
+            # default: one position per reachable sum (the one-hot automaton "marks exactly that sum" for every string)
+            r = sum(a - 1 for a in al) + 1 if case["r"] is None else case["r"]
             return {"ok": True, "shape": al + [r], "dense": [1 if sum(x) == k else 0 for x in strings for k in range(r)]}
         raise ValueError(op)
 
@@ -447,6 +448,6 @@ class Prop:
         if op == "weight":
             return "mkCase (OWeight %s) %s []" % (nl(al), coq_list(dense))
         if op == "weight_one_hot":
-            r = case["r"] if case["r"] is not None else N + 1
+            r = case["r"] if case["r"] is not None else sum(a - 1 for a in al) + 1
             return "mkCase (OOneHot %d %s) %s []" % (r, nl(al), coq_list(dense))
         return None
